@@ -68,7 +68,8 @@ static void prop_params_table(Tape &t, Ctx &c) {
     typedef void (*Fn)(Tape &, Ctx &, const char *);
     struct Entry { Fn fn; const char *label; };
 #define X(T, L) {&test_struct<T>, L},
-    // ilut: import/typed access here; its export is instantiated by the compile probe c14_probe_ilut.cpp
+    // ilut: import, typed access and unknown keys here; its export / re-import (same table, same test_struct) runs in the compile probe
+    // c14_probe_ilut.cpp, so that an export that does not compile is reported as a violation and not as a broken harness. Same for deflated_solver.
     static const Entry table[] = {C14_STRUCTS(X) {&test_struct<re::ilut<B>::params, false>, "ilut(import)"}};
 #undef X
     const size_t n = sizeof(table) / sizeof(table[0]);
@@ -218,7 +219,7 @@ static void prop_invalid_enum(Tape &t, Ctx &c) {
 
 static std::vector<Prop> props() {
     return {
-        Prop("params_table", prop_params_table, 4000, 40000, 100, 8, {1}, 2, 8),
+        Prop("params_table", prop_params_table, 4000, 40000, 100, 10, {1}, 2, 8),
         Prop("runtime_wrappers", prop_runtime_wrappers, 1500, 15000, 100, 5, {1}, 2, 4),
         Prop("invalid_enum", prop_invalid_enum, 1000, 8000, 100, 1, {1}, 1, 2),
     };
